@@ -68,56 +68,192 @@ fn roundtrip_law<F: TimeUnitTrait, T: TimeUnitTrait>() {
     assert!(back.0 == v, "finer-then-back identity");
 }
 
-macro_rules! h {
-    ($law:ident: $($name:ident: $f:ident => $t:ident),* $(,)?) => {$(
-        #[kani::proof]
-        pub fn $name() { $law::<$f, $t>() }
-    )*};
+#[kani::proof]
+pub fn c16_nat_ns_ns() {
+    nat_law::<Nanosecond, Nanosecond>()
 }
 
-h!(nat_law:
-    c16_nat_ns_ns: Nanosecond => Nanosecond,
-    c16_nat_ns_us: Nanosecond => Microsecond,
-    c16_nat_ns_ms: Nanosecond => Millisecond,
-    c16_nat_ns_s: Nanosecond => Second,
-    c16_nat_us_ns: Microsecond => Nanosecond,
-    c16_nat_us_us: Microsecond => Microsecond,
-    c16_nat_us_ms: Microsecond => Millisecond,
-    c16_nat_us_s: Microsecond => Second,
-    c16_nat_ms_ns: Millisecond => Nanosecond,
-    c16_nat_ms_us: Millisecond => Microsecond,
-    c16_nat_ms_ms: Millisecond => Millisecond,
-    c16_nat_ms_s: Millisecond => Second,
-    c16_nat_s_ns: Second => Nanosecond,
-    c16_nat_s_us: Second => Microsecond,
-    c16_nat_s_ms: Second => Millisecond,
-    c16_nat_s_s: Second => Second,
-);
-h!(coarser_law:
-    c16_floor_ns_us: Nanosecond => Microsecond,
-    c16_floor_ns_ms: Nanosecond => Millisecond,
-    c16_floor_ns_s: Nanosecond => Second,
-    c16_floor_us_ms: Microsecond => Millisecond,
-    c16_floor_us_s: Microsecond => Second,
-    c16_floor_ms_s: Millisecond => Second,
-);
-h!(finer_law:
-    c16_mul_ns_ns: Nanosecond => Nanosecond,
-    c16_mul_us_us: Microsecond => Microsecond,
-    c16_mul_ms_ms: Millisecond => Millisecond,
-    c16_mul_s_s: Second => Second,
-    c16_mul_us_ns: Microsecond => Nanosecond,
-    c16_mul_ms_ns: Millisecond => Nanosecond,
-    c16_mul_ms_us: Millisecond => Microsecond,
-    c16_mul_s_ns: Second => Nanosecond,
-    c16_mul_s_us: Second => Microsecond,
-    c16_mul_s_ms: Second => Millisecond,
-);
-h!(roundtrip_law:
-    c16_back_us_ns: Microsecond => Nanosecond,
-    c16_back_ms_ns: Millisecond => Nanosecond,
-    c16_back_ms_us: Millisecond => Microsecond,
-    c16_back_s_ns: Second => Nanosecond,
-    c16_back_s_us: Second => Microsecond,
-    c16_back_s_ms: Second => Millisecond,
-);
+#[kani::proof]
+pub fn c16_nat_ns_us() {
+    nat_law::<Nanosecond, Microsecond>()
+}
+
+#[kani::proof]
+pub fn c16_nat_ns_ms() {
+    nat_law::<Nanosecond, Millisecond>()
+}
+
+#[kani::proof]
+pub fn c16_nat_ns_s() {
+    nat_law::<Nanosecond, Second>()
+}
+
+#[kani::proof]
+pub fn c16_nat_us_ns() {
+    nat_law::<Microsecond, Nanosecond>()
+}
+
+#[kani::proof]
+pub fn c16_nat_us_us() {
+    nat_law::<Microsecond, Microsecond>()
+}
+
+#[kani::proof]
+pub fn c16_nat_us_ms() {
+    nat_law::<Microsecond, Millisecond>()
+}
+
+#[kani::proof]
+pub fn c16_nat_us_s() {
+    nat_law::<Microsecond, Second>()
+}
+
+#[kani::proof]
+pub fn c16_nat_ms_ns() {
+    nat_law::<Millisecond, Nanosecond>()
+}
+
+#[kani::proof]
+pub fn c16_nat_ms_us() {
+    nat_law::<Millisecond, Microsecond>()
+}
+
+#[kani::proof]
+pub fn c16_nat_ms_ms() {
+    nat_law::<Millisecond, Millisecond>()
+}
+
+#[kani::proof]
+pub fn c16_nat_ms_s() {
+    nat_law::<Millisecond, Second>()
+}
+
+#[kani::proof]
+pub fn c16_nat_s_ns() {
+    nat_law::<Second, Nanosecond>()
+}
+
+#[kani::proof]
+pub fn c16_nat_s_us() {
+    nat_law::<Second, Microsecond>()
+}
+
+#[kani::proof]
+pub fn c16_nat_s_ms() {
+    nat_law::<Second, Millisecond>()
+}
+
+#[kani::proof]
+pub fn c16_nat_s_s() {
+    nat_law::<Second, Second>()
+}
+
+#[kani::proof]
+pub fn c16_floor_ns_us() {
+    coarser_law::<Nanosecond, Microsecond>()
+}
+
+#[kani::proof]
+pub fn c16_floor_ns_ms() {
+    coarser_law::<Nanosecond, Millisecond>()
+}
+
+#[kani::proof]
+pub fn c16_floor_ns_s() {
+    coarser_law::<Nanosecond, Second>()
+}
+
+#[kani::proof]
+pub fn c16_floor_us_ms() {
+    coarser_law::<Microsecond, Millisecond>()
+}
+
+#[kani::proof]
+pub fn c16_floor_us_s() {
+    coarser_law::<Microsecond, Second>()
+}
+
+#[kani::proof]
+pub fn c16_floor_ms_s() {
+    coarser_law::<Millisecond, Second>()
+}
+
+#[kani::proof]
+pub fn c16_mul_ns_ns() {
+    finer_law::<Nanosecond, Nanosecond>()
+}
+
+#[kani::proof]
+pub fn c16_mul_us_us() {
+    finer_law::<Microsecond, Microsecond>()
+}
+
+#[kani::proof]
+pub fn c16_mul_ms_ms() {
+    finer_law::<Millisecond, Millisecond>()
+}
+
+#[kani::proof]
+pub fn c16_mul_s_s() {
+    finer_law::<Second, Second>()
+}
+
+#[kani::proof]
+pub fn c16_mul_us_ns() {
+    finer_law::<Microsecond, Nanosecond>()
+}
+
+#[kani::proof]
+pub fn c16_mul_ms_ns() {
+    finer_law::<Millisecond, Nanosecond>()
+}
+
+#[kani::proof]
+pub fn c16_mul_ms_us() {
+    finer_law::<Millisecond, Microsecond>()
+}
+
+#[kani::proof]
+pub fn c16_mul_s_ns() {
+    finer_law::<Second, Nanosecond>()
+}
+
+#[kani::proof]
+pub fn c16_mul_s_us() {
+    finer_law::<Second, Microsecond>()
+}
+
+#[kani::proof]
+pub fn c16_mul_s_ms() {
+    finer_law::<Second, Millisecond>()
+}
+
+#[kani::proof]
+pub fn c16_back_us_ns() {
+    roundtrip_law::<Microsecond, Nanosecond>()
+}
+
+#[kani::proof]
+pub fn c16_back_ms_ns() {
+    roundtrip_law::<Millisecond, Nanosecond>()
+}
+
+#[kani::proof]
+pub fn c16_back_ms_us() {
+    roundtrip_law::<Millisecond, Microsecond>()
+}
+
+#[kani::proof]
+pub fn c16_back_s_ns() {
+    roundtrip_law::<Second, Nanosecond>()
+}
+
+#[kani::proof]
+pub fn c16_back_s_us() {
+    roundtrip_law::<Second, Microsecond>()
+}
+
+#[kani::proof]
+pub fn c16_back_s_ms() {
+    roundtrip_law::<Second, Millisecond>()
+}
